@@ -29,7 +29,7 @@ open VgiVerif.JsonSchema (JV Schema Atom F Pat fullMatch)
 abbrev Key := VgiVerif.Gen.C34.Key
 namespace G
 export VgiVerif.Gen.C34 (schema msgLimit emptyFallback emitBase emitCond emitOnce pipeViaHelper httpMsgHelper telemetryOnce
-  okStatus unaryErr initRaise exchangeRaise exchangeOvershoot producerTurn sidAtInit sidOnHit sidOnMiss sentinelBase sentinelCond shedOrder
+  okStatus unaryErr initRaise exchangeRaise exchangeOvershoot producerTurn sidAtInit sidOnHit sidOnMiss jsonAsciiOnly sentinelBase sentinelCond shedOrder
   sentinelErrFallback egressCond egressOnce)
 end G
 
@@ -593,5 +593,56 @@ def format (fits : Record → Bool) (r : Record) : Record :=
   else if r.requestData && fits (stage1 r) then stage1 r
   else if (stage1 r).claims.isSome && fits (stage2 r) then stage2 r
   else sentinel (stage2 r)
+
+/-! ## The line as written: `json.dumps(obj, default=str[, ensure_ascii=…])` -/
+
+def hexDigit (n : Nat) : Char := if n < 10 then Char.ofNat (48 + n) else Char.ofNat (87 + n)
+
+/-- `\uXXXX` of a 16-bit code unit -/
+def u4 (n : Nat) : Str := ['\\', 'u', hexDigit (n / 4096 % 16), hexDigit (n / 256 % 16), hexDigit (n / 16 % 16), hexDigit (n % 16)]
+
+/-- one character of a JSON string as `json.dumps` writes it (`encode_basestring_ascii` when `asciiOnly`, else
+`encode_basestring`): quote, backslash and C0 controls are always escaped; with `ensure_ascii` everything outside
+`' '..'~'` becomes `\uXXXX` (a surrogate pair above U+FFFF), otherwise it is written raw -/
+def escChar (asciiOnly : Bool) (c : Char) : Str :=
+  if c = '"' then ['\\', '"']
+  else if c = '\\' then ['\\', '\\']
+  else if c = '\n' then ['\\', 'n']
+  else if c = '\r' then ['\\', 'r']
+  else if c = '\t' then ['\\', 't']
+  else if c.toNat = 8 then ['\\', 'b']
+  else if c.toNat = 12 then ['\\', 'f']
+  else if c.toNat < 0x20 then u4 c.toNat
+  else if asciiOnly && decide (0x7e < c.toNat) then
+    (if c.toNat < 0x10000 then u4 c.toNat
+     else u4 (0xd800 + (c.toNat - 0x10000) / 1024) ++ u4 (0xdc00 + (c.toNat - 0x10000) % 1024))
+  else [c]
+
+def renderStr (asciiOnly : Bool) (s : Str) : Str := ['"'] ++ s.flatMap (escChar asciiOnly) ++ ['"']
+
+/-- how Python prints what is not a string — integers, floats, a nested (claims) object: trusted to be printable ASCII
+(`int.__repr__`, `float.__repr__`; the nested object goes through the same `json.dumps`) -/
+structure Tokens where
+  int : Int → Str
+  num : Int → Str
+  obj : Str
+
+def renderJV (asciiOnly : Bool) (tk : Tokens) : JV → Str
+  | .str s => renderStr asciiOnly s
+  | .int n => tk.int n
+  | .num m => tk.num m
+  | .bool true => ['t', 'r', 'u', 'e']
+  | .bool false => ['f', 'a', 'l', 's', 'e']
+  | .obj => tk.obj
+  | .null => ['n', 'u', 'l', 'l']
+
+def renderFields (asciiOnly : Bool) (tk : Tokens) : List (Key × JV) → Str
+  | [] => []
+  | [(k, v)] => renderStr asciiOnly k.name.toList ++ [':', ' '] ++ renderJV asciiOnly tk v
+  | (k, v) :: r => renderStr asciiOnly k.name.toList ++ [':', ' '] ++ renderJV asciiOnly tk v ++ [',', ' '] ++ renderFields asciiOnly tk r
+
+/-- the text the handler writes for a record (up to the order of the keys) -/
+def renderLine (tk : Tokens) (r : Record) : Str :=
+  ['{'] ++ renderFields G.jsonAsciiOnly tk (r.keys.filterMap fun k => (r.get k).map fun v => (k, v)) ++ ['}']
 
 end VgiVerif.C34
